@@ -89,9 +89,9 @@ CHECKS["C31"] = dict(
         quick=[dict(mode="edges", spec="TrafficGen.tla", cfg="TrafficGenEdges.cfg", depth=5, max=500, name="edges"),
                dict(mode="exh", spec="TrafficGen.tla", cfg="TrafficGenExh.cfg", depth=2, name="all-depth2"),
                dict(mode="sim", spec="TrafficGen.tla", cfg="TrafficGenSim.cfg", depth=20, num=25, max=250, name="walks")],
-        thorough=[dict(mode="edges", spec="TrafficGen.tla", cfg="TrafficGenEdges.cfg", depth=7, name="edges", timeout=900),
+        thorough=[dict(mode="edges", spec="TrafficGen.tla", cfg="TrafficGenEdges.cfg", depth=6, name="edges", timeout=900),
                   dict(mode="exh", spec="TrafficGen.tla", cfg="TrafficGenExh.cfg", depth=3, name="all-depth3"),
-                  dict(mode="sim", spec="TrafficGen.tla", cfg="TrafficGenSim.cfg", depth=30, num=300, max=3000, name="walks")]),
+                  dict(mode="sim", spec="TrafficGen.tla", cfg="TrafficGenSim.cfg", depth=30, num=300, max=2000, name="walks")]),
     post_gen=_c31_post,
     judge=dict(spec="TrafficTrace.tla", cfg="TrafficTrace.cfg"),
     corrupt=corrupt_field("credit", "st", _c31_corrupt),
